@@ -187,6 +187,13 @@ fn fill<C: ZooComp>(world: &World, set: &BTreeSet<u32>, handles: &BTreeMap<u32, 
             order.swap(i, (x % (i as u64 + 1)) as usize);
         }
     }
+    if churn % 3 == 2 && order.len() <= 20_000 {
+        // the storage was used and cleared before
+        for i in order.iter().rev().take(9) {
+            st.insert(handles[i], C::make(7)).expect("live entity");
+        }
+        st.clear();
+    }
     for i in &order {
         let c = C::make(1000 + salt * 7 + (*i % 97));
         out.insert(*i, c.ident());
